@@ -1,9 +1,12 @@
 (* C10 - whatever the repository editor signs and writes, the client loads back unchanged.
-   Pinned statements only; proofs are in Proofs/EditorRTP.v. The composed theorem is proved for
-   repositories without delegated roles (named _partial); delegated roles at any depth and the
-   cross-party flow are covered by the correspondence check only. *)
+   Pinned statements only; proofs are in Proofs/EditorRTP.v (repositories without delegated roles,
+   C10_roundtrip_partial) and Proofs/EditorTreeP.v (delegated roles at any depth,
+   C10_roundtrip_delegated). The cross-party flow (update_delegated_targets) has its acceptance
+   condition proved (C10_incoming_checked); its composition with sign is covered by the
+   correspondence check only. *)
 From ToughV Require Export Model.Base Model.Pct Model.Sig Model.Glob Model.Deleg Model.Client Model.EditorRT.
-From ToughV Require Import Proofs.SigP Proofs.EditorRTP.
+From ToughV Require Import Proofs.SigP Proofs.EditorRTP Proofs.EditorTreeP.
+Export EditorTreeP.
 From Coq Require Import ZifyBool Lia.
 
 (* editor o client = identity: if the editor's sign step succeeds, a client holding the same root
@@ -67,3 +70,139 @@ Proof.
   cbn [fixed fx_deleg_distinct] in H1. rewrite verify_distinct_spec in H1. exact H1.
 Qed.
 Print Assumptions C10_incoming_checked.
+
+(* ---------------------------------------------------------------------------------------------- *)
+(* delegated roles at any depth *)
+
+(* editor o client = identity for a repository with a tree of delegated roles: if sign + write succeed
+   (ed_sign_tree: every delegated role verifies under its delegating role's keys and threshold, none
+   bears a top-level role name, every target is reachable through the path patterns), a client
+   holding the same root loads exactly the timestamp, the snapshot and the targets document with
+   the whole tree the editor built - for every tree shape and depth, every key table, threshold,
+   path set, version and expiration of every role, every file length/digest function, both
+   consistent-snapshot settings. Side conditions on role names: pairwise distinct over the whole
+   tree, made of bytes, and - when file names carry no version - no role is called
+   "<root version + 1>.root". Neither can be dropped: C10_distinct_names_refuted,
+   C10_next_root_name_refuted. No limit is needed for the role files (the snapshot pins their lengths),
+   no expiration for delegated roles (the client does not check it when loading). *)
+Theorem C10_roundtrip_delegated : forall (len_of dig_of : content -> N) (r : root) (e : edit) (dkeys : list N)
+    (ch : list enode) (keys : list N) (cfg : config) (now : Z) tg sn ts srv,
+  ed_sign_tree len_of dig_of r e dkeys ch keys = Some (tg, sn, ts, srv) ->
+  root_verify r 0 (r_sigs r) = true ->
+  NoDup keys -> (forall k, In k keys -> memN k (r_keys r) = true) ->
+  NoDup (map en_name (all_roles ch)) ->
+  Forall (fun n => Forall (fun c => c < 256) (en_name n)) (all_roles ch) ->
+  (r_cs r = false -> ~ In (dec (r_version r + 1) ++ [46; 114; 111; 111; 116]) (map en_name (all_roles ch))) ->
+  r_version r < update_limit fixed (r_version r) (c_max_root_updates cfg) ->
+  (tree_depth ch <= c_fuel cfg)%nat ->
+  len_of (CTs ts) <= c_max_timestamp_size cfg ->
+  (now <= r_expires r)%Z -> (now <= e_tsexp e)%Z -> (now <= e_sexp e)%Z -> (now <= e_texp e)%Z ->
+  exists w,
+    run_cycle fixed {| cy_cfg := cfg; cy_shipped := CRoot r; cy_srv := srv; cy_now := now; cy_fault := None |} store0
+    = (Ok {| rp_root := r; rp_ts := ts; rp_snap := sn; rp_targets := tg |}, w).
+Proof. exact editor_client_roundtrip_tree. Qed.
+Print Assumptions C10_roundtrip_delegated.
+
+(* the targets document is what was put in with the tree attached; the snapshot lists targets.json and
+   every delegated role with the version, length and digest of the file written for it, and nothing
+   else; the timestamp describes the snapshot file *)
+Theorem C10_meta_exact_delegated : forall (len_of dig_of : content -> N) (r : root) (e : edit) (dkeys : list N)
+    (ch : list enode) (keys : list N) tg sn ts srv,
+  ed_sign_tree len_of dig_of r e dkeys ch keys = Some (tg, sn, ts, srv) ->
+  NoDup (map en_name (all_roles ch)) ->
+  Forall (fun n => Forall (fun c => c < 256) (en_name n)) (all_roles ch) ->
+  let doc := top_file_doc e dkeys ch (tg_sigs tg) in
+  tg = top_loaded e dkeys ch (tg_sigs tg)
+  /\ lookup name_targets (sn_meta sn)
+     = Some {| m_version := e_tv e; m_length := Some (len_of (CTargets doc)); m_hash := Some (dig_of (CTargets doc)) |}
+  /\ lookup (versioned (r_cs r) (e_tv e) name_targets) srv = Some (Served (mkfile len_of dig_of (CTargets doc)))
+  /\ (forall n, In n (all_roles ch) ->
+        lookup (json_of (en_name n)) (sn_meta sn)
+        = Some {| m_version := en_version n; m_length := Some (len_of (CTargets (en_file_doc n)));
+                  m_hash := Some (dig_of (CTargets (en_file_doc n))) |}
+        /\ lookup (role_filename (r_cs r) (en_version n) (en_name n)) srv
+           = Some (Served (mkfile len_of dig_of (CTargets (en_file_doc n)))))
+  /\ (forall k m, lookup k (sn_meta sn) = Some m ->
+        k = name_targets \/ exists n, In n (all_roles ch) /\ k = json_of (en_name n))
+  /\ ts_meta ts = [(name_snapshot, {| m_version := sn_version sn; m_length := Some (len_of (CSnap sn));
+                                     m_hash := Some (dig_of (CSnap sn)) |})]
+  /\ lookup (versioned (r_cs r) (sn_version sn) name_snapshot) srv = Some (Served (mkfile len_of dig_of (CSnap sn)))
+  /\ lookup name_timestamp srv = Some (Served (mkfile len_of dig_of (CTs ts)))
+  /\ sn_version sn = e_sv e /\ ts_version ts = e_tsv e /\ sn_expires sn = e_sexp e /\ ts_expires ts = e_tsexp e.
+Proof. exact tree_meta_exact. Qed.
+Print Assumptions C10_meta_exact_delegated.
+
+(* the tree attached to a loaded document, one level at a time: header, version, expiration, entries,
+   key table and signatures of every delegated role as put in, its own delegated roles attached likewise *)
+Theorem C10_loaded_tree_exact : forall ch : list enode,
+  Forall2 (fun hc n => fst hc = en_hdr n
+                       /\ exists t, snd hc = Some t
+                          /\ tg_version t = en_version n /\ tg_expires t = en_expires n
+                          /\ tg_entries t = en_entries n /\ tg_has_deleg t = true /\ tg_dkeys t = en_dkeys n
+                          /\ tg_sigs t = sign_with (dh_keyids (en_hdr n)) (en_signers n)
+                          /\ tg_roles t = loaded_roles (en_children n))
+          (loaded_roles ch) ch.
+Proof. exact loaded_roles_exact. Qed.
+Print Assumptions C10_loaded_tree_exact.
+
+(* the editor signs a delegated role only if it verifies under its delegating role (F12) and bears no
+   top-level role name (F18) *)
+Theorem C10_delegated_sign_checked : forall (len_of dig_of : content -> N) r e dkeys ch keys res,
+  ed_sign_tree len_of dig_of r e dkeys ch keys = Some res ->
+  forall n, In n (all_roles ch) ->
+    mem_bytes (en_name n) top_role_names = false
+    /\ exists dk sibs, parent_in (en_name n) (top_node e dkeys ch) = Some (dk, sibs)
+                       /\ deleg_verify fixed dk (hdrs_of sibs) (en_name n) (en_sigs n) = true.
+Proof. exact delegated_sign_checked. Qed.
+Print Assumptions C10_delegated_sign_checked.
+
+(* without pairwise distinct role names the round trip is false: two roles named B in different
+   branches - the editor signs and writes, the client loads, and a target has disappeared *)
+Theorem C10_distinct_names_refuted : forall cs,
+  exists tg sn ts srv w rp,
+    ed_sign_tree x_len x_len (x_root cs) x_edit [4; 7] [dup_A; dup_B1] [1; 2; 3; 20] = Some (tg, sn, ts, srv)
+    /\ root_verify (x_root cs) 0 (r_sigs (x_root cs)) = true
+    /\ NoDup [1; 2; 3; 20] /\ (forall k, In k [1; 2; 3; 20] -> memN k (r_keys (x_root cs)) = true)
+    /\ Forall (fun n => Forall (fun c => c < 256) (en_name n)) (all_roles [dup_A; dup_B1])
+    /\ (r_cs (x_root cs) = false ->
+        ~ In (dec (r_version (x_root cs) + 1) ++ [46; 114; 111; 111; 116]) (map en_name (all_roles [dup_A; dup_B1])))
+    /\ r_version (x_root cs) < update_limit fixed (r_version (x_root cs)) (c_max_root_updates x_cfg)
+    /\ (tree_depth [dup_A; dup_B1] <= c_fuel x_cfg)%nat
+    /\ x_len (CTs ts) <= c_max_timestamp_size x_cfg
+    /\ (100 <= r_expires (x_root cs))%Z /\ (100 <= e_tsexp x_edit)%Z /\ (100 <= e_sexp x_edit)%Z /\ (100 <= e_texp x_edit)%Z
+    /\ ~ NoDup (map en_name (all_roles [dup_A; dup_B1]))
+    /\ run_cycle fixed (x_cyc cs srv) store0 = (Ok rp, w)
+    /\ map (fun ni => tn_raw (fst ni)) (targets_iter tg) = [[116]; [97; 47; 98; 47; 121]]
+    /\ map (fun ni => tn_raw (fst ni)) (targets_iter (rp_targets rp)) = [[116]].
+Proof. exact distinct_names_needed. Qed.
+Print Assumptions C10_distinct_names_refuted.
+
+(* without the condition on "<root version + 1>.root" it is false as well: file names without version
+   prefix, root version 1, a delegated role named 2.root - the client takes that role's file for the
+   next root and stops *)
+Theorem C10_next_root_name_refuted :
+  exists tg sn ts srv w,
+    ed_sign_tree x_len x_len (x_root false) x_edit [7] [nr_role] [1; 2; 3; 20] = Some (tg, sn, ts, srv)
+    /\ root_verify (x_root false) 0 (r_sigs (x_root false)) = true
+    /\ NoDup [1; 2; 3; 20] /\ (forall k, In k [1; 2; 3; 20] -> memN k (r_keys (x_root false)) = true)
+    /\ NoDup (map en_name (all_roles [nr_role]))
+    /\ Forall (fun n => Forall (fun c => c < 256) (en_name n)) (all_roles [nr_role])
+    /\ r_version (x_root false) < update_limit fixed (r_version (x_root false)) (c_max_root_updates x_cfg)
+    /\ (tree_depth [nr_role] <= c_fuel x_cfg)%nat
+    /\ x_len (CTs ts) <= c_max_timestamp_size x_cfg
+    /\ (100 <= r_expires (x_root false))%Z /\ (100 <= e_tsexp x_edit)%Z /\ (100 <= e_sexp x_edit)%Z /\ (100 <= e_texp x_edit)%Z
+    /\ In (dec (r_version (x_root false) + 1) ++ [46; 114; 111; 111; 116]) (map en_name (all_roles [nr_role]))
+    /\ run_cycle fixed (x_cyc false srv) store0 = (Err E_Parse 0, w).
+Proof. exact next_root_name_needed. Qed.
+Print Assumptions C10_next_root_name_refuted.
+
+(* non-vacuity: targets delegating to A and B, A delegating to C, every delegated role 2 of 3 keys,
+   targets and snapshot 2 of 3; signed, written, loaded back; one signature less and the editor refuses *)
+Example C10_delegated_example : forall cs,
+  exists tg sn ts srv w,
+    ed_sign_tree x_len x_len (x_root cs) x_edit [4; 5; 6; 7; 8; 9] [x_A; x_B [9; 8; 2]] [1; 2; 3; 20] = Some (tg, sn, ts, srv)
+    /\ run_cycle fixed (x_cyc cs srv) store0 = (Ok {| rp_root := x_root cs; rp_ts := ts; rp_snap := sn; rp_targets := tg |}, w)
+    /\ map (fun ni => tn_raw (fst ni)) (targets_iter tg) = [[116]; [97; 47; 120]; [97; 47; 99; 47; 121]; [98; 47; 122]]
+    /\ map fst (sn_meta sn) = [name_targets; [65; 46; 106; 115; 111; 110]; [67; 46; 106; 115; 111; 110]; [66; 46; 106; 115; 111; 110]]
+    /\ ed_sign_tree x_len x_len (x_root cs) x_edit [4; 5; 6; 7; 8; 9] [x_A; x_B [9; 2]] [1; 2; 3; 20] = None.
+Proof. exact tree_example. Qed.
